@@ -59,7 +59,7 @@ Qed.
 
 Lemma unrecognized_nospawn q u : NoSpawn (handle_unrecognized_method q u).
 Proof.
-  unfold handle_unrecognized_method. constructor. intros [|r]; [constructor|].
+  unfold handle_unrecognized_method. destruct (req_only_if_cached _); [constructor|]. constructor. intros [|r]; [constructor|].
   destruct (_ && _); [|constructor]. unfold get_refs_clean. constructor. intros ans.
   apply invalidate_cache_nospawn. constructor.
 Qed.
@@ -82,7 +82,10 @@ Proof.
   assert (Ho := f_equal fst Hx). assert (Hw := f_equal snd Hx). cbn [fst snd] in Ho, Hw. subst obs w'. clear Hx. cbn [x_result] in Hres. subst res.
   cbn [clear_log_pending]. unfold gone. cbn [w_store].
   (* the foreground run *)
-  unfold handle_unrecognized_method in E1. cbn [run] in E1.
+  unfold handle_unrecognized_method in E1.
+  destruct (req_only_if_cached _).
+  { cbn [run] in E1. assert (Hr := f_equal fst E1). cbn [fst] in Hr. inversion Hr as [Hr']. rewrite <- Hr' in Hok. vm_compute in Hok. discriminate. }
+  cbn [run] in E1.
   destruct (do_origin None q (clear_log_pending w)) as [rep wa].
   destruct rep as [|r0]; [cbn [run] in E1; discriminate|].
   rewrite Hunsafe in E1. cbn [andb] in E1.
